@@ -47,6 +47,7 @@
 EXTENDS Cea608Decoder, Json, IOUtils, TLCExt
 
 Recs == ndJsonDeserialize(IOEnv.TRACE_FILE)
+TracePick(S) == S                    \* the generator is not used when validating traces
 
 VARIABLES i,        \* record
           k,        \* next step of the record
@@ -106,6 +107,10 @@ ClauseFor(cands, O, special) ==
             ELSE "rollup_rows"
        ELSE IF cands[1].kind = "painton" THEN "painton_screen" ELSE "popon_screen"
 
+\* diagnostics (only when the environment variable C08_DEBUG is set): the candidates as <<row, code points>>
+Dbg(x) == IF "C08_DEBUG" \in DOMAIN IOEnv THEN PrintT(x) ELSE TRUE
+Brief(scr) == [j \in 1..Len(scr) |-> <<scr[j].row, [x \in 1..Len(scr[j].cells) |-> scr[j].cells[x].ch]>>]
+
 \* attributes of the non-space characters, against the matching candidate
 AttrOk(c, O, r, fr) ==
   \A j \in 1..Len(c.scr) :
@@ -118,7 +123,7 @@ AttrOk(c, O, r, fr) ==
 
 CheckScreen(r, fr, cands, O, special) ==
   LET hits == {j \in 1..Len(cands) : Matches(cands[j], O)} IN
-  IF hits = {} THEN Fail(r, fr, ClauseFor(cands, O, special))
+  IF hits = {} THEN Fail(r, fr, ClauseFor(cands, O, special)) /\ Dbg(<<"DBG", r, fr, [j \in 1..Len(cands) |-> Brief(cands[j].scr)], O>>)
   ELSE AttrOk(cands[CHOOSE j \in hits : \A j2 \in hits : j <= j2], O, r, fr)
 
 WithExact(c, e) == [scr |-> c.scr, kind |-> c.kind, base |-> c.base, depth |-> c.depth, exact |-> e]
@@ -138,8 +143,9 @@ CopyFollows(rec, kk, code, fr, d) ==
      \/ /\ kk + 2 <= Len(rec.steps) /\ rec.steps[kk + 1].t = "L" /\ LabelFrames(d, rec.steps[kk + 1].lab) = fr + 1
         /\ rec.steps[kk + 2].t = "W" /\ Strip(rec.steps[kk + 2].w) = code
 
-TW(kind) ==
-  /\ InRec /\ St.t = "W" /\ Kind(St.w) = kind
+\* one received word: the decoder action named by `kind` fires, then the recorded screen of that frame is judged
+Pre(kind) == InRec /\ St.t = "W" /\ Kind(St.w) = kind
+Post(kind) ==
   /\ Receive(St.w)
   /\ LET fr     == frame
          after  == [scr |-> Screen(disp'), kind |-> NextDk, base |-> base', depth |-> depth', exact |-> FALSE]
@@ -160,11 +166,17 @@ TW(kind) ==
          /\ cov' = IF trigger THEN cov \cup {x \in ChangeFrames(Rec) : fr <= x /\ x <= fr + 1 + d} ELSE cov
   /\ k' = k + 1 /\ UNCHANGED <<i, skipped>> /\ UNCHANGED gvars
 
-TNull == TW("Null")            TChars == TW("Chars")        TPac == TW("Pac")          TMidRow == TW("MidRow")
-TRCL == TW("RCL")              TRDC == TW("RDC")            TRU == TW("RU")            TCR == TW("CR")
-TEOC == TW("EOC")              TEDM == TW("EDM")            TENM == TW("ENM")          TBS == TW("BS")
-TTO == TW("TO")                TDER == TW("DER")            TSpecial == TW("Special")  TExtended == TW("Extended")
-TDupControl == TW("DupControl")    TOtherChannel == TW("OtherChannel")
+\* one named trace action per decoder action (TLC's coverage report then counts the decoder actions that fired)
+TNull == Pre("Null") /\ Post("Null")                TChars == Pre("Chars") /\ Post("Chars")
+TPac == Pre("Pac") /\ Post("Pac")                   TMidRow == Pre("MidRow") /\ Post("MidRow")
+TRCL == Pre("RCL") /\ Post("RCL")                   TRDC == Pre("RDC") /\ Post("RDC")
+TRU == Pre("RU") /\ Post("RU")                      TCR == Pre("CR") /\ Post("CR")
+TEOC == Pre("EOC") /\ Post("EOC")                   TEDM == Pre("EDM") /\ Post("EDM")
+TENM == Pre("ENM") /\ Post("ENM")                   TBS == Pre("BS") /\ Post("BS")
+TTO == Pre("TO") /\ Post("TO")                      TDER == Pre("DER") /\ Post("DER")
+TSpecial == Pre("Special") /\ Post("Special")       TExtended == Pre("Extended") /\ Post("Extended")
+TDupControl == Pre("DupControl") /\ Post("DupControl")
+TOtherChannel == Pre("OtherChannel") /\ Post("OtherChannel")
 
 \* frames fr0 .. fr1 carry no data: the screen is the current one throughout
 Quiet(rec, fr0, fr1, exact) ==
